@@ -185,21 +185,80 @@ theorem boolCompare_key (a b : Bool) :
     Gen.boolCompare a b = sgnCmp (boolKey a) (boolKey b) := by
   cases a <;> cases b <;> decide
 
-theorem float64Compare_key (a b : BitVec 64) (ha : Flt.isNaN a = false) (hb : Flt.isNaN b = false) :
-    Gen.float64Compare a b = sgnCmp (Flt.key a) (Flt.key b) := by
-  unfold Gen.float64Compare sgnCmp Flt.gt Flt.lt
-  simp only [ha, hb, Bool.not_false, Bool.true_and, decide_eq_true_eq]
+theorem signMask_eq : (0x8000000000000000#64) = BitVec.twoPow 64 63 := by decide
+
+/-- the value of the regenerated `float64OrderKey` (IEEE-754 totalOrder key), by sign bit -/
+theorem float64OrderKey_toNat (f : BitVec 64) :
+    (Gen.float64OrderKey f).toNat =
+      if 2 ^ 63 ≤ f.toNat then 2 ^ 64 - 1 - f.toNat else f.toNat + 2 ^ 63 := by
+  have hlt := f.isLt
+  unfold Gen.float64OrderKey
+  simp only [signMask_eq, BitVec.and_twoPow]
+  have hmsb : f.getLsbD 63 = decide (2 ^ 63 ≤ f.toNat) := by
+    have := BitVec.msb_eq_decide f
+    rw [BitVec.msb_eq_getLsbD_last] at this
+    simpa using this
+  by_cases h : 2 ^ 63 ≤ f.toNat
+  · have hb : f.getLsbD 63 = true := by rw [hmsb]; simpa using h
+    have hne : (BitVec.twoPow 64 63 != 0x0#64) = true := by decide
+    simp only [hb, if_true, hne, h]
+    rw [BitVec.toNat_not]
+  · have hb : f.getLsbD 63 = false := by rw [hmsb]; simpa using h
+    have hz : ((0#64 : BitVec 64) != 0x0#64) = false := by decide
+    simp only [hb, hz, h, if_false, Bool.false_eq_true]
+    have hand : f &&& BitVec.twoPow 64 63 = 0#64 := by rw [BitVec.and_twoPow, hb]; rfl
+    rw [← BitVec.add_eq_or_of_and_eq_zero _ _ hand, BitVec.toNat_add, BitVec.toNat_twoPow]
+    omega
+
+/-- the integer key Float64Compare orders by -/
+def f64Key (f : BitVec 64) : Int := ((Gen.float64OrderKey f).toNat : Int)
+
+theorem float64Compare_key (a b : BitVec 64) :
+    Gen.float64Compare a b = sgnCmp (f64Key a) (f64Key b) := by
+  unfold Gen.float64Compare sgnCmp f64Key
+  simp only [BitVec.ult, decide_eq_true_eq]
   all_goals ((repeat' split) <;> omega)
-theorem toInt_inj' (a b : BitVec 64) (h : a.toInt = b.toInt) : a = b := BitVec.eq_of_toInt_eq h
-theorem key_inj (a b : BitVec 64) (ha : Flt.isNegZero a = false) (hb : Flt.isNegZero b = false)
-    (h : Flt.key a = Flt.key b) : a = b := by
+
+/-- the key is injective on ALL bit patterns (NaNs and both zeros included) -/
+theorem f64Key_inj (a b : BitVec 64) (h : f64Key a = f64Key b) : a = b := by
   apply BitVec.eq_of_toNat_eq
-  unfold Flt.key at h
+  unfold f64Key at h
+  have ea := float64OrderKey_toNat a
+  have eb := float64OrderKey_toNat b
+  generalize (Gen.float64OrderKey a).toNat = ka at ea h
+  generalize (Gen.float64OrderKey b).toNat = kb at eb h
+  have := a.isLt; have := b.isLt
+  split at ea <;> split at eb <;> omega
+
+/-- unless both are zeros, the key order is the order of the sign-magnitude keys `Flt.key`,
+    i.e. for non-NaN values the IEEE-754 order of `<`, `>` -/
+theorem f64Key_ieee (a b : BitVec 64)
+    (hz : ¬ (Flt.isZero a = true ∧ Flt.isZero b = true)) :
+    sgnCmp (f64Key a) (f64Key b) = sgnCmp (Flt.key a) (Flt.key b) := by
+  unfold f64Key
+  have ea := float64OrderKey_toNat a
+  have eb := float64OrderKey_toNat b
+  generalize (Gen.float64OrderKey a).toNat = ka at ea ⊢
+  generalize (Gen.float64OrderKey b).toNat = kb at eb ⊢
+  unfold Flt.isZero Flt.mag at hz
+  unfold Flt.key Flt.neg Flt.mag sgnCmp
+  have := a.isLt; have := b.isLt
+  simp only [decide_eq_true_eq] at hz ⊢
+  split at ea <;> split at eb <;> (repeat' split) <;> omega
+
+/-- Go's `==` on float64 identifies only the two zeros (and never holds for a NaN) -/
+theorem Flt.eq_imp {a b : BitVec 64} (ha : Flt.isNegZero a = false) (hb : Flt.isNegZero b = false)
+    (h : Flt.eq a b = true) : a = b := by
+  apply BitVec.eq_of_toNat_eq
+  unfold Flt.eq at h
+  simp only [Bool.and_eq_true, decide_eq_true_eq] at h
+  have hk := h.2
+  unfold Flt.key at hk
   unfold Flt.isNegZero Flt.isZero at ha hb
   unfold Flt.neg Flt.mag at *
   have := a.isLt; have := b.isLt
-  simp only [Bool.and_eq_false_iff, decide_eq_false_iff_not, decide_eq_true_eq] at ha hb h
-  split at h <;> split at h <;> omega
+  simp only [Bool.and_eq_false_iff, decide_eq_false_iff_not, decide_eq_true_eq] at ha hb hk
+  split at hk <;> split at hk <;> omega
 
 /-! ### strings.Compare -/
 
@@ -651,7 +710,7 @@ theorem u64Exact : LeafExact (fun _ : BitVec 64 => True) Gen.uint64Compare :=
 
 theorem i64Exact : LeafExact (fun _ : BitVec 64 => True) Gen.int64Compare :=
   LeafExact.of_key (fun a => a.toInt) (fun a b _ _ => int64Compare_key a b)
-    (fun a b _ _ h => BitVec.eq_of_toInt_eq h)
+    (fun _ _ _ _ h => BitVec.eq_of_toInt_eq h)
 
 theorem boolExact : LeafExact (fun _ : Bool => True) Gen.boolCompare :=
   LeafExact.of_key boolKey (fun a b _ _ => boolCompare_key a b)
@@ -663,39 +722,33 @@ theorem strExact : LeafExact (fun _ : Bytes => True) strCompare where
   tri a b d _ _ _ := strCompare_tri a b d
   eq_of_zero a b _ _ := strCompare_eq_of_zero a b
 
-/-- no NaN: Float64Compare is a total preorder (-0 and +0 are still identified) -/
-theorem f64Order : LeafOrder (fun w : BitVec 64 => Flt.isNaN w = false) Gen.float64Compare :=
-  LeafOrder.of_key Flt.key (fun a b ha hb => float64Compare_key a b ha hb)
-
-/-- no NaN and no negative zero: Float64Compare is exact -/
-theorem f64Exact :
-    LeafExact (fun w : BitVec 64 => Flt.isNaN w = false ∧ Flt.isNegZero w = false) Gen.float64Compare :=
-  LeafExact.of_key Flt.key (fun a b ha hb => float64Compare_key a b ha.1 hb.1)
-    (fun a b ha hb h => key_inj a b ha.2 hb.2 h)
+/-- Float64Compare (since 05846e0: IEEE-754 totalOrder key) is exact on ALL bit patterns -/
+theorem f64Exact : LeafExact (fun _ : BitVec 64 => True) Gen.float64Compare :=
+  LeafExact.of_key f64Key (fun a b _ _ => float64Compare_key a b) (fun a b _ _ h => f64Key_inj a b h)
 
 theorem primCompare_rank_ne (a b : PrimVal) (h : a.rank ≠ b.rank) : primCompare a b = a.rank - b.rank := by
   cases a <;> cases b <;> simp [primCompare, PrimVal.rank] at h ⊢
 
-theorem primOrder : LeafOrder PrimVal.notNaN primCompare where
-  refl a ha := by
+theorem primExact : LeafExact (fun _ : PrimVal => True) primCompare where
+  refl a _ := by
     cases a with
     | u64 w => exact u64Exact.refl w trivial
     | i64 w => exact i64Exact.refl w trivial
     | bool w => exact boolExact.refl w trivial
-    | f64 w => exact f64Order.refl w ha
+    | f64 w => exact f64Exact.refl w trivial
     | str w => exact strExact.refl w trivial
     | bytes w => exact strExact.refl w trivial
-  antisymm a b ha hb := by
+  antisymm a b _ _ := by
     by_cases hr : a.rank = b.rank
     · cases a <;> cases b <;> simp [PrimVal.rank] at hr <;> simp only [primCompare]
       · exact u64Exact.antisymm _ _ trivial trivial
       · exact i64Exact.antisymm _ _ trivial trivial
       · exact boolExact.antisymm _ _ trivial trivial
-      · exact f64Order.antisymm _ _ ha hb
+      · exact f64Exact.antisymm _ _ trivial trivial
       · exact strExact.antisymm _ _ trivial trivial
       · exact strExact.antisymm _ _ trivial trivial
     · rw [primCompare_rank_ne a b hr, primCompare_rank_ne b a (Ne.symm hr)]; omega
-  tri a b d ha hb hd := by
+  tri a b d _ _ _ := by
     by_cases hr : a.rank = b.rank ∧ b.rank = d.rank
     · obtain ⟨h1, h2⟩ := hr
       cases a <;> cases b <;> simp [PrimVal.rank] at h1 <;> cases d <;> simp [PrimVal.rank] at h2 <;>
@@ -703,26 +756,17 @@ theorem primOrder : LeafOrder PrimVal.notNaN primCompare where
       · exact u64Exact.tri _ _ _ trivial trivial trivial
       · exact i64Exact.tri _ _ _ trivial trivial trivial
       · exact boolExact.tri _ _ _ trivial trivial trivial
-      · exact f64Order.tri _ _ _ ha hb hd
+      · exact f64Exact.tri _ _ _ trivial trivial trivial
       · exact strExact.tri _ _ _ trivial trivial trivial
       · exact strExact.tri _ _ _ trivial trivial trivial
     · exact Tri.of_ranks (primCompare_rank_ne a b) (primCompare_rank_ne b d) (primCompare_rank_ne a d) hr
-
-theorem PrimVal.plain_notNaN {a : PrimVal} (h : a.plainFloat) : a.notNaN := by
-  cases a <;> first | exact h.1 | trivial
-
-theorem primExact : LeafExact PrimVal.plainFloat primCompare where
-  refl a ha := primOrder.refl a (PrimVal.plain_notNaN ha)
-  antisymm a b ha hb := primOrder.antisymm a b (PrimVal.plain_notNaN ha) (PrimVal.plain_notNaN hb)
-  tri a b d ha hb hd :=
-    primOrder.tri a b d (PrimVal.plain_notNaN ha) (PrimVal.plain_notNaN hb) (PrimVal.plain_notNaN hd)
-  eq_of_zero a b ha hb hz := by
+  eq_of_zero a b _ _ hz := by
     by_cases hr : a.rank = b.rank
     · cases a <;> cases b <;> simp [PrimVal.rank] at hr <;> simp only [primCompare] at hz
       · rw [u64Exact.eq_of_zero _ _ trivial trivial hz]
       · rw [i64Exact.eq_of_zero _ _ trivial trivial hz]
       · rw [boolExact.eq_of_zero _ _ trivial trivial hz]
-      · rw [f64Exact.eq_of_zero _ _ ha hb hz]
+      · rw [f64Exact.eq_of_zero _ _ trivial trivial hz]
       · rw [strExact.eq_of_zero _ _ trivial trivial hz]
       · rw [strExact.eq_of_zero _ _ trivial trivial hz]
     · rw [primCompare_rank_ne a b hr] at hz; omega
